@@ -69,7 +69,7 @@ def _pairs_from_choi(J, din, dout):
 
 
 CP_CONS = ("stinespring", "unitary", "isometry", "mixed-unitary", "unital-cp", "cp-generic", "tp-scaled", "unital-scaled", "redundant-unitary", "redundant-split", "zero-padded")
-NONCP_CONS = ("cptp-minus", "non-hp", "hp-perturbed", "diag-imag", "cp-shifted", "witness", "transpose", "phase-pair", "similarity")
+NONCP_CONS = ("cptp-minus", "non-hp", "hp-perturbed", "diag-imag", "cp-shifted", "witness", "transpose", "phase-pair", "similarity", "scaled-unitary-pair")
 
 
 def _construct(p):
@@ -178,6 +178,11 @@ def _construct(p):
     if cons == "phase-pair":
         u = U.haar(rng, din, field)
         return [u], [-u]
+    if cons == "scaled-unitary-pair":
+        # the unitary channel X -> U X U^dagger written as a left / right pair (c U, U / conj(c)) with c != 1: the same map, another description
+        u = U.haar(rng, din, field)
+        c = 1.5 * (np.exp(0.3j) if field == "complex" else 1.0)
+        return [c * u], [u / np.conj(c)]
     if cons == "similarity":
         # X -> A X B^dagger with B^dagger A = I and A != B: Choi rank one, trace preserving, equal square dimensions -- and not a unitary channel
         # (not even Hermiticity preserving): A = U S, B = U S^{-dagger} for a non-unitary invertible S
@@ -849,11 +854,11 @@ def cases(tier, seed):
     plan = []
     for din, dout in dims:
         for cons in CP_CONS + NONCP_CONS:
-            if cons in ("unitary", "mixed-unitary", "redundant-unitary", "transpose", "phase-pair", "similarity") and din != dout:
+            if cons in ("unitary", "mixed-unitary", "redundant-unitary", "transpose", "phase-pair", "similarity", "scaled-unitary-pair") and din != dout:
                 continue
             if cons == "isometry" and not dout > din:
                 continue
-            if cons in ("unitary", "isometry", "redundant-unitary", "transpose", "phase-pair", "similarity"):
+            if cons in ("unitary", "isometry", "redundant-unitary", "transpose", "phase-pair", "similarity", "scaled-unitary-pair"):
                 ranks = [1]
             elif cons == "mixed-unitary":
                 ranks = [2, 3, din * din] if din > 1 else [2]
